@@ -502,7 +502,78 @@ pub fn run_c09(ctx: &Ctx) -> i32 {
             }
         }
     }
+    // the daemon as it really restarts: the real writer loop publishing through the real ShmWriter (not a recording
+    // sink) over whatever the previous lifetime left at the segment path - nothing, the placeholder of a lifetime
+    // that never synchronised, a good record, a record left mid-update - followed by every sequence of
+    // non-synchronised outcomes of depth <= 3; after every publication the segment is read like a client does
+    let mut restart_cases = 0u64;
+    {
+        use clock_bound_shm::ShmReader;
+        use std::os::unix::fs::FileExt;
+        let short = sequences(&NONSYNC_OUT, 3.min(depth));
+        let good = Rec { as_of_s: 90, as_of_ns: 0, va_s: 1090, va_ns: 0, bound: 77_000_001, drift: 1000, reserved: 0, status: 1 };
+        let placeholder = Rec { as_of_s: 0, as_of_ns: 0, va_s: 1000, va_ns: 0, bound: 0, drift: 1000, reserved: 0, status: 0 };
+        for (pi, prior) in ["no file", "placeholder of a lifetime that never synchronised", "a synchronised record", "a synchronised record, then killed mid-update", "placeholder, then killed mid-update"].iter().enumerate() {
+            for seq in &short {
+                for k in 1..=seq.len() {
+                    if k < seq.len() && seq.len() > 1 && pi != 1 {
+                        continue; // prefixes once (with the placeholder prior); full sequences for every prior
+                    }
+                    restart_cases += 1;
+                    let path = dir.join(format!("c09-restart-{pi}"));
+                    let _ = std::fs::remove_file(&path);
+                    if pi > 0 {
+                        let mut w = ShmWriter::new(&path).expect("writer");
+                        w.write(&(if pi == 2 || pi == 3 { good } else { placeholder }).to_ceb());
+                        drop(w);
+                        if pi >= 3 {
+                            if let Ok(f) = std::fs::OpenOptions::new().read(true).write(true).open(&path) {
+                                let mut g = [0u8; 2];
+                                let _ = f.read_exact_at(&mut g, 14);
+                                let _ = f.write_all_at(&(u16::from_ne_bytes(g) | 1).to_ne_bytes(), 14);
+                                let _ = f.write_all_at(&[0x33u8; 20], 16);
+                            }
+                        }
+                    }
+                    let m0 = 100i64;
+                    vclock::arm(VClock { real_ns: R0, mono_ns: (m0 as i128 + k as i128) * S, auto_advance_ns: 0, fail_errno: 0, fail_clock: -1 });
+                    let msgs: Vec<Message> = seq[..k].iter().enumerate().map(|(i, o)| o.message(R0, 0, as_of_for(m0, i))).collect();
+                    let p2 = path.clone();
+                    let r = std::panic::catch_unwind(move || {
+                        let writer = ShmWriter::new(&p2).expect("writer");
+                        pipeline::run_updater_with(msgs, 1000, writer);
+                    });
+                    vclock::disarm();
+                    crate::seqmc::engine::close_leaked_fds(&path);
+                    let doc = json!({"check": "C09", "phase": "restart through the real ShmWriter", "segment_before_the_restart": prior, "outcomes_since_start": seq_name(&seq[..k])});
+                    if r.is_err() {
+                        sink.add("C09:panic".into(), "the writer loop panicked".into(), doc);
+                        continue;
+                    }
+                    let cpath = std::ffi::CString::new(path.to_str().unwrap()).unwrap();
+                    let seen = ShmReader::new(&cpath).ok().and_then(|mut rd| rd.snapshot().ok().map(Rec::from_ceb));
+                    if let Some(rec) = seen {
+                        if rec.status != 0 {
+                            sink.add(
+                                format!("C09:restart:trusted-before-first-sync:{}", seq[k - 1].short()),
+                                format!("segment before the restart: {prior}; restarted daemon, then {:?}: the segment now holds status {} with bound {} ns and as-of ({}, {}) although this daemon never received a synchronised report", seq_name(&seq[..k]), status_name(rec.status), rec.bound, rec.as_of_s, rec.as_of_ns),
+                                doc.clone(),
+                            );
+                        }
+                        for up in [5i128, 100, 999] {
+                            if let Ok(st) = client_status(&path, None, up * S) {
+                                if st != 0 {
+                                    sink.add("C09:restart:client-trusts-before-first-sync".into(), format!("segment before the restart: {prior}; restarted daemon, then {:?}: a client at uptime {up} s obtains status {}", seq_name(&seq[..k]), status_name(st)), doc.clone());
+                                }
+                            }
+                        }
+                    }
+                }
+            }
+        }
+    }
     let coverage = cov(vec![
+        ("restarts_through_the_real_ShmWriter", json!(restart_cases)),
         ("states", json!(distinct.len().max(1))),
         ("transitions", json!(n * depth as u64)),
         ("traces_validated_against_impl", json!(n)),
